@@ -962,11 +962,11 @@ func R15CountLoop(c *Ctx) {
 // packTransformsAllowed: the functions a listener/operator setting may pass through on its way into a packed string
 // (confirmed by reading PatchConfig; anything else changes the configured value).
 var packTransformsAllowed = map[string]string{
-	"strings.Split":                          "host:port split",
+	"strings.Split":                         "host:port split",
 	"Havoc/pkg/common.GetInterfaceIpv4Addr": "an interface name is replaced by its address (documented listener feature)",
-	"fmt.Sprintf":                            "formatting",
-	"strconv.Itoa":                           "formatting",
-	"strings.Join":                           "joining list elements",
+	"fmt.Sprintf":                           "formatting",
+	"strconv.Itoa":                          "formatting",
+	"strings.Join":                          "joining list elements",
 }
 
 // R15PackVerbatim — settings are packed as configured.
